@@ -13,7 +13,7 @@ import dataclasses
 import enum
 import itertools
 from dataclasses import make_dataclass
-from typing import Dict, List, Optional, Tuple
+from typing import Any, Dict, List, Optional, Tuple
 
 from adaptix import DebugTrail, ExtraForbid, Retort, name_mapping
 from adaptix.load_error import (
@@ -60,6 +60,9 @@ def structures(tier):
     d2 = []
     for t in leaves:
         d2 += [("List", t), ("Dict", t), ("IDict", t), ("EDict", t), ("Tuple1", t), ("Optional", t)]
+    for b in leaves:
+        d2.append(("Tuple", ("any",), b))       # an element typed Any in FRONT of a checked one (positions are counted by hand)
+        d2.append(("Tuple3", ("any",), b, ("any",)))
     for a in leaves:
         for b in leaves:
             d2.append(("Tuple", a, b))
@@ -69,6 +72,7 @@ def structures(tier):
     inner = d2
     for t in inner:
         d3 += [("List", t), ("Dict", t), ("Optional", t), ("Tuple", t, ("int",)), ("Tuple", ("str",), t)]
+        d3 += [("Tuple", ("any",), t), ("Tuple3", ("any",), t, ("any",))]
         if t[0] not in ("EDict", "Tuple1"):
             d3 += [("EDict", t), ("Tuple1", t)]
         for lay in LAYOUTS:
@@ -114,6 +118,10 @@ def build(ts, recipe):
     h = ts[0]
     if h == "int":
         return int
+    if h == "any":
+        return Any
+    if h == "Tuple3":
+        return Tuple[build(ts[1], recipe), build(ts[2], recipe), build(ts[3], recipe)]
     if h == "str":
         return str
     if h == "List":
@@ -158,6 +166,10 @@ def valid(ts, salt=0):
     h = ts[0]
     if h == "int":
         return 1 + salt
+    if h == "any":
+        return {"anything": [salt]}
+    if h == "Tuple3":
+        return [valid(ts[1], 0), valid(ts[2], 1), valid(ts[3], 2)]
     if h == "str":
         return "s" + str(salt)
     if h == "List":
@@ -276,6 +288,19 @@ def faults(ts, at=()):  # noqa: C901
         for f in sub:
             f.under_optional = f.under_optional if f.under_optional is not None and len(f.under_optional) < len(at) else at
         out += sub
+    elif h == "any":
+        pass      # nothing can be wrong at a position typed Any
+    elif h == "Tuple3":
+        for i in (0, 1, 2):
+            out += faults(ts[i + 1], (*at, i))
+
+        def plant_long3(root, at=at):
+            (_get(root, at) if at else root).append("extra-item")
+        out.append(Fault("too_long", at, at, "extra_items", plant_long3, kills=at))
+
+        def plant_short3(root, at=at):
+            (_get(root, at) if at else root).pop()
+        out.append(Fault("too_short", at, at, "missing_items", plant_short3, kills=at))
     elif h == "Tuple":
         out += faults(ts[1], (*at, 0))
         out += faults(ts[2], (*at, 1))
